@@ -20,7 +20,10 @@ STUBS = r'''
 #[verifier::external_body] pub struct SockArc { _p: () }
 #[verifier::external_body] pub fn io_send_258(io: &ConnIo, pkt: &[u8; 258]) -> Result<usize, IoError> { unimplemented!() }
 #[verifier::external_body] pub fn io_send_38(io: &ConnIo, pkt: &[u8; 38]) -> Result<usize, IoError> { unimplemented!() }
-#[verifier::external_body] pub fn io_socket_clone(io: &ConnIo) -> SockArc { unimplemented!() }
+// socket identity (ghost): which OS socket a ConnIo currently holds / an Arc clone refers to.  A successful re-open installs a NEW socket.
+impl ConnIo { pub uninterp spec fn sock_id(&self) -> int; }
+impl SockArc { pub uninterp spec fn id(&self) -> int; }
+#[verifier::external_body] pub fn io_socket_clone(io: &ConnIo) -> (r: SockArc) ensures r.id() == io.sock_id() { unimplemented!() }
 #[verifier::external_body] pub fn restart_reader_for(conn: &SrtlaConnection, s: SockArc, readers: &mut HashMap<u64, ReaderHandle>, tx: &PacketTx) { }
 #[verifier::external_body] pub fn reader_is_dead(readers: &HashMap<u64, ReaderHandle>, id: u64) -> bool { unimplemented!() }
 #[verifier::external_body] pub fn anyhow_err() -> AnyhowError { unimplemented!() }
@@ -29,7 +32,9 @@ pub fn conn_io_get_mut<'a>(m: &'a mut ConnIoMap, k: u64) -> (r: Option<&'a mut C
     ensures (r is Some) == old(m)@.contains_key(k), final(m)@.dom() == old(m)@.dom(),
 { m.get_mut(&k) }
 // create_uplink_socket + bind + connect + set_nonblocking + BatchUdpSocket::new : socket work only
-#[verifier::external_body] pub fn io_reopen_socket(conn: &SrtlaConnection, io: &mut ConnIo) -> Result<(), AnyhowError> { unimplemented!() }
+#[verifier::external_body] pub fn io_reopen_socket(conn: &SrtlaConnection, io: &mut ConnIo) -> (r: Result<(), AnyhowError>)
+    ensures r is Ok ==> final(io).sock_id() != old(io).sock_id(), r is Err ==> final(io).sock_id() == old(io).sock_id(),
+{ unimplemented!() }
 
 impl SrtlaRegistrationManager {
     // check_probing_complete reads the ambient clock and walks probe_results (min_by_key): outside the subset.
@@ -100,6 +105,7 @@ def build():
                requires=['now < CLOCK_MAX'],
                ensures=[
                    C('C08.hk.reconnect_uplink.failed_socket_work_leaves_the_link_untouched', 'r is Err ==> *final(conn) == *old(conn)'),
+                   C('C08+C09.hk.reconnect_uplink.a_successful_reconnect_installs_a_new_socket', '(r is Ok ==> final(io).sock_id() != old(io).sock_id()) && (r is Err ==> final(io).sock_id() == old(io).sock_id())'),
                    C('C06+C08.hk.reconnect_uplink.rejoins_with_default_window_zero_in_flight_registering', '''r is Ok ==> final(conn).window == 20000 && final(conn).in_flight_packets == 0 && final(conn).packet_log@.len() == 0
             && !final(conn).connected && final(conn).phase is Registering && final(conn).last_received is None'''),
                    C('C07+C08.hk.reconnect_uplink.retry_clock_and_startup_grace_restart', 'r is Ok ==> final(conn).reconnection.last_reconnect_attempt_ms == now && final(conn).reconnection.reconnect_failure_count == 0 && final(conn).reconnection.startup_grace_deadline_ms == now + 5000'),
@@ -141,6 +147,7 @@ pub fn hk_count_active(connections: &[SrtlaConnection], current_ms: u64) -> (r: 
                              ('io.socket.send(&pkt)', '({ proof { lemma_sent_push(sent, (conn.conn_id, pkt@)); sent = sent.push((conn.conn_id, pkt@)); } io_send_258(io, &pkt) })', None),
                              ('io.socket.send(&ka)', '({ proof { lemma_sent_push(sent, (conn.conn_id, ka@)); sent = sent.push((conn.conn_id, ka@)); } io_send_38(io, &ka) })', None),
                              ('io.socket.clone()', 'io_socket_clone(io)', None),
+                             (re.compile(r'restart_reader_for\(conn, ([^,]+), '), r'restart_reader_for(conn, ({ let sock_arg = \1; proof { assert(sock_arg.id() == io.sock_id()); }  // @ob C08+C09.hk.a_restarted_reader_listens_on_the_links_current_socket\n sock_arg }), ', None),
                              (re.compile(r'anyhow!\("[^"]*"\)'), 'anyhow_err()', None)],
                requires=['hk_wf(old(connections)@)', 'now_ms < CLOCK_MAX', 'now_ms > 0'],
                ensures=['final(connections).len() == old(connections).len()', 'hk_wf(final(connections)@)',
